@@ -4,7 +4,8 @@
      np.linalg.solve  -> exact Gauss-Jordan elimination ([gj_solve]);
      np.linalg.pinv(T) @ b for the LI matrix T -> the exact solution of T x = b
        through the dual bases of the input states and the Pauli matrices
-       ([li_solve_closed]); the correspondence run compares with numpy. *)
+       ([li_solve_closed], rows = vec(conj P (x) rho): Pauli index first);
+       the correspondence run compares with numpy. *)
 From Coq Require Import ZArith List Bool.
 From Bignums Require Import BigQ.
 From LW Require Import Base.Sx Base.Num Base.Sums Base.Mat Base.QI2 Exec.QNum Model.Tomo Exec.RunC15.
@@ -69,8 +70,8 @@ Definition li_solve_closed (n : nat) (N : nat) (T : nat -> nat -> C) (b : nat ->
                    (combine (seq 0 N) (li_keys n)) in
   fun x => let r := (x / D)%nat in let c := (x mod D)%nat in
            kmul cqops w (suml cqops terms (fun t =>
-             kmul cqops (fst t) (kmul cqops (fst (snd t) (r / dim)%nat (c / dim)%nat)
-                                            (snd (snd t) (r mod dim)%nat (c mod dim)%nat)))).
+             kmul cqops (fst t) (kmul cqops (fst (snd t) (r mod dim)%nat (c mod dim)%nat)
+                                            (snd (snd t) (r / dim)%nat (c / dim)%nat)))).
 
 (* ---- inputs from the harness ---- *)
 Definition mk_mat (rows : list (list (Z * Z * (Z * Z)))) : nat -> nat -> C :=
